@@ -41,7 +41,8 @@ enum Case {
     /// two requests in a row on ONE real REP: the reply to the second must carry exactly the
     /// second request's envelope whatever happened to the first.
     /// first: 0 bare answered, 1 prefixed answered, 2 prefixed NOT answered, 3 degenerate [id, ""] (rejected),
-    /// 4 prefixed, reply attempted after the requester's connection failed writes
+    /// 4 prefixed, reply attempted after the requester's connection failed writes,
+    /// 5/6 prefixed, the reply's send abandoned under back-pressure (after 7 bytes / before any byte), then sent again
     RepTwoStep { first: u8, first_prefix: u8, second_prefix: u8 },
     /// a history on ONE real REQ socket with two echo peers (identities ID0, ID1): steps
     /// 0 = request/reply cycle, 1/2 = peer 0/1 closes its connection, 3/4 = peer 0/1's connection starts failing writes,
@@ -315,6 +316,17 @@ fn scenario(case: &Case) -> Verdict {
                         let r = s.send(msg(&[b"r1".to_vec()])).await;
                         obs2.borrow_mut().push(format!("send#1 -> {}", e3::ok_or_err(&r)));
                     }
+                    5 | 6 => {
+                        // the requester's connection takes 7 bytes (5) / nothing (6) and stalls; the reply's send is
+                        // abandoned (a timeout around send()), the connection recovers, the application tries again
+                        world::set_wmode(c1.from_lib, if first == 5 { world::WMode::Budget(7) } else { world::WMode::Stalled });
+                        let r = world::until_idle(s.send(msg(&[b"r1".to_vec()]))).await;
+                        obs2.borrow_mut().push(format!("send#1 -> {}", r.as_ref().map(|r| e3::ok_or_err(r)).unwrap_or_else(|| "abandoned".into())));
+                        world::set_wmode(c1.from_lib, world::WMode::Open);
+                        world::yield_now().await;
+                        let r = world::until_idle(s.send(msg(&[b"r1".to_vec()]))).await;
+                        obs2.borrow_mut().push(format!("send#1 again -> {}", r.as_ref().map(|r| e3::ok_or_err(r)).unwrap_or_else(|| "abandoned".into())));
+                    }
                     _ => {}
                 }
                 world::set_cond("second-go");
@@ -336,7 +348,20 @@ fn scenario(case: &Case) -> Verdict {
                 if wire.len() != before + 1 || wire.last() != Some(&want) {
                     viol2.borrow_mut().push((
                         "rep-two-step/reply-envelope-not-that-of-the-request-being-answered".into(),
-                        format!("first request {} ({}), second request {}: the reply to the second went out as {:?}, expected exactly {}", show(&req1), ["answered", "answered", "left unanswered", "rejected (nothing after its delimiter)", "reply failed on a broken connection"][first as usize], show(&req2), wire.iter().skip(before).map(|m| show(m)).collect::<Vec<_>>(), show(&want)),
+                        format!("first request {} ({}), second request {}: the reply to the second went out as {:?}, expected exactly {}", show(&req1), ["answered", "answered", "left unanswered", "rejected (nothing after its delimiter)", "reply failed on a broken connection", "reply abandoned under back-pressure after 7 bytes, then sent again", "reply abandoned before a byte was written, then sent again"][first as usize], show(&req2), wire.iter().skip(before).map(|m| show(m)).collect::<Vec<_>>(), show(&want)),
+                    ));
+                }
+                // whatever became of the first reply: every complete message on the first requester's connection is
+                // that reply behind exactly the first request's envelope
+                world::idle().await;
+                let mut want1 = pf1.clone();
+                want1.push(vec![]);
+                want1.push(b"r1".to_vec());
+                let wire1 = c1.tap_messages();
+                if wire1.iter().any(|m| *m != want1) || wire1.len() > if first >= 5 { 2 } else { 1 } {
+                    viol2.borrow_mut().push((
+                        "rep-two-step/first-requester-wire".into(),
+                        format!("first request {} ({}): the first requester's connection carries {:?}, every message there must be {}", show(&req1), ["answered", "answered", "left unanswered", "rejected (nothing after its delimiter)", "reply failed on a broken connection", "reply abandoned under back-pressure after 7 bytes, then sent again", "reply abandoned before a byte was written, then sent again"][first as usize], wire1.iter().map(|m| show(m)).collect::<Vec<_>>(), show(&want1)),
                     ));
                 }
                 world::wait_cond("never").await;
@@ -498,7 +523,7 @@ pub fn run(tier: Tier, replay: Option<String>) -> i32 {
             cases.push(Case::ReqSide { kinds: p.clone(), reply: r });
         }
     }
-    for first in 0..5u8 {
+    for first in 0..7u8 {
         for first_prefix in 0..=2u8 {
             if first == 0 && first_prefix != 0 || (first != 0 && first_prefix == 0) {
                 continue;
